@@ -256,7 +256,7 @@ fn atom(rng: &mut Rng, sw: &Swarm, sut: &Sut, def: &TableDef, o: PredOpts) -> St
     let lit = |rng: &mut Rng| -> String {
         let l = gen_lit_for(rng, sw, sut, def, ci);
         match (&l, o.mixed_numeric && rng.chance(1, 6)) {
-            (Lit::Int(i), true) if i.abs() < (1 << 40) => {
+            (Lit::Int(i), true) if i.unsigned_abs() < (1u64 << 40) => {
                 if rng.chance(1, 2) {
                     format!("{}.0", i)
                 } else {
@@ -323,7 +323,7 @@ pub fn gen_pk_pred(rng: &mut Rng, sw: &Swarm, sut: &Sut, def: &TableDef, o: Pred
     for ci in &def.pk {
         let l = gen_lit_for(rng, sw, sut, def, *ci);
         let ls = match (&l, o.mixed_numeric && rng.chance(1, 5)) {
-            (Lit::Int(i), true) if i.abs() < (1 << 40) => format!("{}.0", i),
+            (Lit::Int(i), true) if i.unsigned_abs() < (1u64 << 40) => format!("{}.0", i),
             _ => l.sql(),
         };
         if rng.chance(1, 4) {
@@ -510,7 +510,15 @@ pub fn gen_set_expr(rng: &mut Rng, sw: &Swarm, sut: &Sut, def: &TableDef, ci: us
                 1 => format!("{} - 1", c.name),
                 2 => rng.pick(&ints).name.clone(),
                 3 => format!("{} + {}", rng.pick(&ints).name, rng.range(0, 3)),
-                4 => format!("{} * 2", c.name),
+                4 => {
+                    // keep magnitudes far from the i64 edge unless the run asked for extreme values
+                    let big = existing_values(sut, &def.name, ci).iter().any(|l| matches!(l, Lit::Int(i) if i.unsigned_abs() > (1u64 << 40)));
+                    if big && !sw.extreme_ints {
+                        format!("{} + 2", c.name)
+                    } else {
+                        format!("{} * 2", c.name)
+                    }
+                }
                 5 if !c.not_null => "NULL".into(),
                 _ => gen_lit_for(rng, sw, sut, def, ci).sql(),
             }
